@@ -362,14 +362,23 @@ func (db *InstructionDB) FindMinOutputSize(opcode string, operands ng_operand.Op
 	// codegen と同じロジックで最適なエンコーディングを検索する
 	// matchAnyImm = true にすることで、即値が小さい場合に imm8 形式が考慮されるようにする
 	// これにより、pass1 と codegen のサイズ解釈のずれを防ぐ (activeContext.md 参照)
-	encoding, err := db.FindEncoding(opcode, operands, true)
+	return db.findOutputSize(opcode, operands, true)
+}
+
+// FindExactImmOutputSize は FindMinOutputSize と同じ計算を、codegen の handleIMUL と同じ順序
+// (まず matchAnyImm = false、見つからなければ true) でエンコーディングを選んで行います。
+func (db *InstructionDB) FindExactImmOutputSize(opcode string, operands ng_operand.Operands) (int, error) {
+	return db.findOutputSize(opcode, operands, false)
+}
+
+func (db *InstructionDB) findOutputSize(opcode string, operands ng_operand.Operands, matchAnyImmFirst bool) (int, error) {
+	encoding, err := db.FindEncoding(opcode, operands, matchAnyImmFirst)
 	if err != nil {
-		// matchAnyImm=true で見つからない場合、フォールバックとして false で再試行
-		// (基本的には true で見つかるはずだが、予期せぬケースへの対応)
-		log.Printf("warn: FindEncoding(matchAnyImm=true) failed for %s %s, retrying with false: %v", opcode, operands.InternalString(), err)
-		encoding, err = db.FindEncoding(opcode, operands, false)
+		// 最初の検索で見つからない場合、フォールバックとしてもう一方で再試行
+		log.Printf("warn: FindEncoding(matchAnyImm=%v) failed for %s %s, retrying with %v: %v", matchAnyImmFirst, opcode, operands.InternalString(), !matchAnyImmFirst, err)
+		encoding, err = db.FindEncoding(opcode, operands, !matchAnyImmFirst)
 		if err != nil {
-			log.Printf("error: FindEncoding failed even with matchAnyImm=false for %s %s: %v", opcode, operands.InternalString(), err)
+			log.Printf("error: FindEncoding failed even with matchAnyImm=%v for %s %s: %v", !matchAnyImmFirst, opcode, operands.InternalString(), err)
 			return 0, err // フォールバックでも見つからなければエラー
 		}
 	}
